@@ -1,4 +1,5 @@
 ---------------------------- MODULE Ind_Shift ----------------------------
+(* Apalache lemma (unbounded integers): successor / predecessor arithmetic of the de Bruijn graph at every order (C13).         *)
 EXTENDS Integers
 \* Successor / predecessor arithmetic of the de Bruijn graph for ANY order: m stands for 4^(k-1) (any positive integer), the graph has
 \* 4m vertices, v = f*m + r with 0 <= r < m.  The j-th successor of v is (4v + j) mod 4m = 4r + j, and its f-th predecessor is v again;
